@@ -20,5 +20,6 @@ func moreGens() []struct {
 		{"NavShape.v", genNavShape},   // C11
 		{"CsvCfg.v", genCsvCfg},       // C06
 		{"Occurs.v", genOccurs},       // C05
+		{"DateTime.v", genDateTime},   // C19
 	}
 }
